@@ -24,7 +24,7 @@ func init() {
 		NotDecided:  "TODO",
 		Assumptions: trustedBase,
 		Run: func(m *Model, s *Sink) {
-			m.RunObjString(s, "R-ESCAPE") // strings print their exact bytes: printing an object does not rewrite its text
+			m.RunObjString(s, "R-ESCAPE")                                    // strings print their exact bytes: printing an object does not rewrite its text
 			m.RunKeywordTable(s, "R-KWTABLE")                                // no data key is shadowed by a keyword other than true, false, nil, in
 			m.RunFormat(s, "R-FORMAT", m.reachableFns(m.Roots().Render))     // a percent sign in a data string is not a verb
 			m.RunDotKeywords(s, "R-DOTKW")                                   // a field or key spelled like a keyword is reachable with dot syntax
